@@ -212,6 +212,14 @@ def parse_index_list(out):
 # ------------------------------------------------------------------------------- audit
 
 FORBIDDEN = re.compile(r"\b(Admitted|admit|Axiom|Axioms|Parameter|Parameters|Conjecture|Admit Obligations|Unset Guard Checking|bypass_check|Unset Positivity Checking|Unset Universe Checking|type-in-type|impredicative-set)\b")
+# the type of a kernel primitive mentions only primitive types
+PRIMITIVE_TYPE = re.compile(r"^(?:(?:float|PrimInt63\.int|Uint63\.int|int|bool|Set|comparison|float_comparison|float_class|PrimFloat\.float_comparison|PrimFloat\.float_class|carry\s+\S+|->|\*|\(|\))\s*)+$")
+# axioms the standard library itself declares about the primitives (Coq.Floats.FloatAxioms, Coq.Numbers.Cyclic.Int63.Uint63)
+STDLIB_AXIOMS = set("""Prim2SF_valid SF2Prim_Prim2SF Prim2SF_SF2Prim opp_spec abs_spec eqb_spec ltb_spec leb_spec compare_spec classify_spec
+mul_spec add_spec sub_spec div_spec sqrt_spec of_uint63_spec normfr_mantissa_spec frshiftexp_spec ldshiftexp_spec next_up_spec next_down_spec
+Leibniz.eqb_spec of_to_Z lsl_spec lsr_spec land_spec lor_spec lxor_spec addc_def_spec addcarryc_def_spec subc_def_spec subcarryc_def_spec
+diveucl_def_spec diveucl_21_spec addmuldiv_def_spec eqb_refl eqb_correct head0_spec tail0_spec mod_spec mulc_spec div_spec ltb_spec leb_spec
+compare_def_spec""".split())
 ALLOWED_ASSUMPTION = re.compile(r"^(PrimFloat\.|Uint63\.|PrimInt63\.|Sint63\.|float\b|int\b|PArray\.)")
 
 
@@ -289,10 +297,28 @@ def audit_assumptions(prop):
         if "Closed under the global context" in body:
             status[name] = "closed"
             continue
-        # "Axioms:" followed by "name : type" entries
-        entries = re.findall(r"^([A-Za-z_][\w.']*)\s*:", body, re.M)
-        axioms = [e for e in entries if e != "Axioms" and not ALLOWED_ASSUMPTION.match(e)]
-        status[name] = "closed (primitives only)" if not axioms else "AXIOMS: " + ", ".join(axioms)
+        # "Axioms:" followed by "name : type" entries (a type may continue on indented lines)
+        entries = []
+        for line in body.split("\n"):
+            m = re.match(r"^([A-Za-z_][\w.']*)\s*:\s*(.*)$", line)
+            if m and m.group(1) != "Axioms":
+                entries.append([m.group(1), m.group(2)])
+            elif entries and line.startswith(" "):
+                entries[-1][1] += " " + line.strip()
+        axioms, stdlib = [], []
+        for nm, ty in entries:
+            if ALLOWED_ASSUMPTION.match(nm) or PRIMITIVE_TYPE.match(ty.strip()):
+                continue                      # kernel primitive type or operator (not an axiom)
+            if nm.split(".")[-1] in STDLIB_AXIOMS:
+                stdlib.append(nm)
+            else:
+                axioms.append(nm)
+        if axioms:
+            status[name] = "AXIOMS: " + ", ".join(axioms)
+        elif stdlib:
+            status[name] = "closed (standard-library axioms: %s)" % ", ".join(sorted(set(stdlib)))
+        else:
+            status[name] = "closed (primitives only)"
     for n in names:
         status.setdefault(n, "no output")
     return names, status, out
